@@ -143,6 +143,11 @@ def random_case(draw, gates, maxdepth):
             else:
                 exprs[0] = (("bin", draw(st.sampled_from(["and", "or"])), ("un", "not", ("var", draw(st.sampled_from(["ba", "bb"]))), "i"), e0, "i"), "bool")
         first = [exprs[0]] * 3 if len(exprs) == 1 else [exprs[0], exprs[1], exprs[0]]
+        # the front end refuses files of more than 1 000 000 tokens (a stated sanity limit in the parser); the prefix
+        # spelling has more tokens than the infix one, so the repetition count is capped to keep BOTH far below it
+        import re as _re
+        group_tokens = sum(len(_re.findall(r"[A-Za-z_][A-Za-z_0-9]*|-?\d+|[^\sA-Za-z_0-9]", progen.p_expr(e, "p"))) + 12 for e, _t in first)
+        rep = max(2, min(rep, 300000 // max(1, group_tokens)))
         return template(place(first * rep, no_let=True)[: 3 * rep], {"random": 1, "repeated": rep})
     return template(place(exprs), {"random": 1})
 
@@ -332,7 +337,8 @@ def run_case(ctx, prog, ev):
     if postfix:
         ev.cls("has_postfix_operand")
     if prog["features"].get("repeated"):
-        ev.cls("repeated_%d_times" % prog["features"]["repeated"])
+        r_ = prog["features"]["repeated"]
+        ev.cls("repeated_ge_1000_times" if r_ >= 1000 else ("repeated_ge_300_times" if r_ >= 300 else "repeated_lt_300_times"))
     if v == "inconclusive":
         ev.inconclusive += 1
     if v == "same" and chain and len(ev.samples) < 2 and ev.evaluations % 9 == 1:
